@@ -15,7 +15,9 @@ theorem handleTx_success {s : St} {e : Bool} {h : Int} {tx : TxIn} (hc : (handle
       validateTrx (s.findOrNewAcct e tx.to).1 e h tx sender (s.findOrNewAcct e tx.to).2 = .ok s1 ∧
       runTrx s1 e h tx (s.findOrNewAcct e tx.to).2 = .ok (s2, g, none) ∧ (handleTx s e h tx).1 = s2 := by
   have hfc : (if e = true then 5 else 3 : Nat) ≠ 0 := by split <;> omega
-  unfold handleTx at hc ⊢
+  have hl := handleTx_ok_len hc
+  rw [handleTx_goodlen hl] at hc ⊢
+  unfold handleTxOld at hc ⊢
   simp only [] at hc ⊢
   have hdec : tx.decodable = true := by
     by_cases hd : tx.decodable = true
